@@ -621,18 +621,22 @@ func (m *malGen) attackBytes() {
 	m.ts.Put(p, 'f', s)
 }
 
+var c01HugeUnits = []string{"x", "${A} ", "word ", "$$", "a\\ ", "\t", " ", "#", "/", "..", "a/", "${A:S,a,b,}", "'", "\"x\" ", "{", "(", ")", ",", "a=b ", "%", "-e s,a,b, ", "\\\\", "$$x ", "\x1b", "\xff", "é", "[", "*", "a;", "| a ", "&& b "}
+var c01HugePrefixes = []string{"", "A=\t", "# ", ".if ", "t: ", "\t", "bin/", "@comment ", "SHA1 (x) = ", "+", " ", "@exec ", "CONFIGURE_ARGS+=\t", "DEPENDS+=\t", ".for i in ", ".include \""}
+var c01HugeFiles = []string{"Makefile", "PLIST", "DESCR", "distinfo", "patches/patch-aa", "ALTERNATIVES", "options.mk"}
+
 func (m *malGen) attackHuge() {
 	p := m.anyFile()
 	if m.r.Chance(50) {
-		p = m.pkg + "/" + Pick(m.r, []string{"Makefile", "PLIST", "DESCR", "distinfo", "patches/patch-aa", "ALTERNATIVES", "options.mk"})
+		p = m.pkg + "/" + Pick(m.r, c01HugeFiles)
 	}
-	unit := Pick(m.r, []string{"x", "${A} ", "word ", "$$", "a\\ ", "\t", " ", "#", "/", "..", "a/", "${A:S,a,b,}", "'", "\"x\" ", "{", "(", ")", ",", "a=b ", "%", "-e s,a,b, ", "\\\\", "$$x ", "\x1b", "\xff", "é", "[", "*", "a;", "| a ", "&& b "})
+	unit := Pick(m.r, c01HugeUnits)
 	n := 100000 / len(unit)
 	if m.r.Chance(50) {
 		n = (1000 + m.r.Intn(30000)) / len(unit)
 	}
 	body := strings.Repeat(unit, n)
-	prefix := Pick(m.r, []string{"", "A=\t", "# ", ".if ", "t: ", "\t", "bin/", "@comment ", "SHA1 (x) = ", "+", " ", "@exec ", "CONFIGURE_ARGS+=\t", "DEPENDS+=\t", ".for i in ", ".include \""})
+	prefix := Pick(m.r, c01HugePrefixes)
 	m.feat("mal.hugeline")
 	if old, ok := m.ts.Get(p); ok && m.r.Chance(60) {
 		parts := strings.SplitAfter(old, "\n")
